@@ -19,6 +19,8 @@ inductive Op (α β : Type) where
   | retain (f : α → β → Bool)
   | clear
   | drain
+  /-- `*map.get_mut(k)? = v` -/
+  | setFirst (k : α) (v : β)
 
 def applyOp (m : Entries α β) : Op α β → Entries α β
   | .insert k v => (insert m k v).1
@@ -27,6 +29,7 @@ def applyOp (m : Entries α β) : Op α β → Entries α β
   | .retain f => retain f m
   | .clear => clear m
   | .drain => (drain m).1
+  | .setFirst k v => (setFirst m k v).1
 
 /-- the reference multimap: what each operation means on `name → List value` -/
 def specOp (s : α → List β) : Op α β → (α → List β)
@@ -36,6 +39,7 @@ def specOp (s : α → List β) : Op α β → (α → List β)
   | .retain f => fun k' => (s k').filter (f k')
   | .clear => fun _ => []
   | .drain => fun _ => []
+  | .setFirst k v => fun k' => if k' = k then (match s k with | [] => [] | _ :: vs => v :: vs) else s k'
 
 theorem inv_step (m : Entries α β) (op : Op α β) (h : Inv m) : Inv (applyOp m op) := by
   cases op with
@@ -49,6 +53,14 @@ theorem inv_step (m : Entries α β) (op : Op α β) (h : Inv m) : Inv (applyOp 
   | retain f => exact inv_retain f h
   | clear => exact ⟨by simp [applyOp, clear], by simp [applyOp, clear]⟩
   | drain => exact ⟨by simp [applyOp, drain], by simp [applyOp, drain]⟩
+  | setFirst k v =>
+    simp only [applyOp, setFirst]
+    cases hl : lookup k m with
+    | none => exact h
+    | some vs =>
+      cases vs with
+      | nil => exact h
+      | cons old vs' => exact inv_put h (by simp)
 
 /-- **C18_inv**: after any operation sequence from the empty map, names are unique and no name
 is left with an empty value list (so `len_keys`, `contains_key`, `is_empty` are truthful and
@@ -70,6 +82,24 @@ theorem refines_step (m : Entries α β) (op : Op α β) (h : Inv m) :
   | retain f => simp only [applyOp, specOp, abs]; exact lookup_retain f k' m h.1
   | clear => simp [applyOp, clear, specOp, abs, lookup]
   | drain => simp [applyOp, drain, specOp, abs, lookup]
+  | setFirst k v =>
+    simp only [applyOp, setFirst, specOp, abs]
+    cases hl : lookup k m with
+    | none =>
+      by_cases e : k' = k
+      · subst e; simp [hl]
+      · simp [e]
+    | some vs =>
+      cases vs with
+      | nil =>
+        by_cases e : k' = k
+        · subst e; simp [hl]
+        · simp [e]
+      | cons old vs' =>
+        simp only [lookup_put]
+        by_cases e : k' = k
+        · subst e; simp
+        · simp [e]
 
 /-- **C18_refines**: for every operation sequence, the map's contents are exactly those of the
 reference multimap driven by the same sequence (values of one name in insertion order). -/
@@ -113,6 +143,59 @@ theorem C18_len (m : Entries α β) : len m = (pairs m).length ∧ lenKeys m = m
     (isEmpty m = true ↔ m = []) := by
   refine ⟨len_eq_pairs m, rfl, ?_⟩
   simp [isEmpty]
+
+/-- **C18_get_mut**: storing through `get_mut` replaces exactly the first value of that name, leaves
+every other value and name alone, hands back the old first value, does nothing for an absent name
+and — under the invariant — never reaches the `inner[0]` panic. -/
+theorem C18_get_mut (m : Entries α β) (k : α) (v : β) (h : Inv m) :
+    (setFirst m k v).2 ≠ some none ∧
+    (setFirst m k v).2 = (if abs m k = [] then none else some (abs m k).head?) ∧
+    abs (setFirst m k v).1 = specOp (abs m) (.setFirst k v) ∧
+    len (setFirst m k v).1 = len m ∧ Inv (setFirst m k v).1 := by
+  have hi := inv_step m (.setFirst k v) h
+  have hr := refines_step m (.setFirst k v) h
+  simp only [applyOp] at hi hr
+  refine ⟨?_, ?_, hr, ?_, hi⟩
+  · simp only [setFirst]
+    cases hl : lookup k m with
+    | none => simp
+    | some vs =>
+      cases vs with
+      | nil => exact absurd rfl (h.2 _ (lookup_mem hl))
+      | cons old vs' => simp
+  · cases hl : lookup k m with
+    | none => simp [setFirst, abs, hl]
+    | some vs =>
+      cases vs with
+      | nil => exact absurd rfl (h.2 _ (lookup_mem hl))
+      | cons old vs' => simp [setFirst, abs, hl]
+  · simp only [setFirst]
+    cases hl : lookup k m with
+    | none => rfl
+    | some vs =>
+      cases vs with
+      | nil => rfl
+      | cons old vs' => exact len_put_same_length hl (by simp)
+
+/-- **C18_keys**: `keys()` yields every name that has at least one value exactly once and nothing
+else; its length is `len_keys()`. -/
+theorem C18_keys (m : Entries α β) (h : Inv m) :
+    (keys m).Nodup ∧ (∀ k, k ∈ keys m ↔ abs m k ≠ []) ∧ (keys m).length = lenKeys m := by
+  refine ⟨h.1, fun k => ?_, by simp [keys, lenKeys]⟩
+  simp only [keys, abs]
+  cases hl : lookup k m with
+  | none => simpa using lookup_none_iff.mp hl
+  | some vs =>
+    have hm := lookup_mem hl
+    constructor
+    · intro _; simpa using h.2 _ hm
+    · intro _; exact List.mem_map.mpr ⟨_, hm, rfl⟩
+
+/-- **C18_len_spec**: `len()` is the total number of values of the reference multimap — the sum,
+over the names `keys()` reports, of the number of values each has. -/
+theorem C18_len_spec (m : Entries α β) (h : Inv m) :
+    len m = ((keys m).map (fun k => (abs m k).length)).sum :=
+  len_eq_sum_abs m h.1
 
 /-- **C18_iter_exact**: for *any* entry order, `iter()` (same code shape: `into_iter()`) yields
 every (name, value) pair exactly once, values of a name in stored order; before each `next()` the
@@ -158,8 +241,9 @@ theorem C18_http_roundtrip (m : Entries α β) (h : Inv m) :
 /-- non-vacuity: a concrete reachable non-trivial state satisfies the hypotheses and exercises
 multi-value names -/
 example : ∃ m : Entries Nat Nat,
-    m = [Op.append 1 10, Op.append 2 20, Op.append 1 11, Op.insert 3 30, Op.remove 2].foldl applyOp [] ∧
-    Inv m ∧ abs m 1 = [10, 11] ∧ abs m 2 = [] ∧ len m = 3 :=
-  ⟨[(1, [10, 11]), (3, [30])], by decide, ⟨by decide, by decide⟩, by decide, by decide, by decide⟩
+    m = [Op.append 1 10, Op.append 2 20, Op.append 1 11, Op.insert 3 30, Op.remove 2,
+         Op.setFirst 1 12, Op.setFirst 2 99].foldl applyOp [] ∧
+    Inv m ∧ abs m 1 = [12, 11] ∧ abs m 2 = [] ∧ len m = 3 :=
+  ⟨[(1, [12, 11]), (3, [30])], by decide, ⟨by decide, by decide⟩, by decide, by decide, by decide⟩
 
 end ActixModel.HeaderMap.C18
